@@ -144,8 +144,29 @@ func (mw *msgWriter) putFlateWriter() {
 	}
 }
 
+var (
+	errWriterClosed        = errors.New("cannot use closed writer")
+	errWriterAlreadyClosed = errors.New("writer already closed")
+)
+
+// closeConnOnErr closes the connection when a message could not be written.
+// The message lock stays held by the writer that failed: on a connection that
+// stayed open no later message could ever be written, and a message that was
+// begun can not be completed by anyone else either. Using a writer after its
+// Close is the caller's mistake and leaves the connection alone.
+//
+// It must be deferred before writeMu is taken so that it runs after writeMu
+// has been released: closing the connection takes writeMu itself.
+func (mw *msgWriter) closeConnOnErr(err *error) {
+	if *err != nil && !errors.Is(*err, errWriterClosed) && !errors.Is(*err, errWriterAlreadyClosed) {
+		mw.c.close()
+	}
+}
+
 // Write writes the given bytes to the WebSocket connection.
 func (mw *msgWriter) Write(p []byte) (_ int, err error) {
+	defer mw.closeConnOnErr(&err)
+
 	err = mw.writeMu.lock(mw.ctx)
 	if err != nil {
 		return 0, fmt.Errorf("failed to write: %w", err)
@@ -153,7 +174,7 @@ func (mw *msgWriter) Write(p []byte) (_ int, err error) {
 	defer mw.writeMu.unlock()
 
 	if mw.closed {
-		return 0, errors.New("cannot use closed writer")
+		return 0, errWriterClosed
 	}
 
 	defer func() {
@@ -188,6 +209,7 @@ func (mw *msgWriter) write(p []byte) (int, error) {
 
 // Close flushes the frame to the connection.
 func (mw *msgWriter) Close() (err error) {
+	defer mw.closeConnOnErr(&err)
 	defer errd.Wrap(&err, "failed to close writer")
 
 	err = mw.writeMu.lock(mw.ctx)
@@ -197,7 +219,7 @@ func (mw *msgWriter) Close() (err error) {
 	defer mw.writeMu.unlock()
 
 	if mw.closed {
-		return errors.New("writer already closed")
+		return errWriterAlreadyClosed
 	}
 	mw.closed = true
 
